@@ -4,6 +4,7 @@ package main
 // operands are Origin descriptors.
 
 import (
+	"fmt"
 	"go/token"
 	"sort"
 	"strings"
@@ -19,7 +20,29 @@ type Atom struct {
 	B    *Org // boolean atom
 	Val  bool
 	Cond ssa.Value // the SSA condition this atom came from
+	Want bool      // the truth value required of Cond
 	str  string
+	id   string
+}
+
+// ID identifies the evaluation: two comparisons with the same descriptor but evaluated by
+// different SSA instructions (e.g. two loads of one variable) are different propositions.
+func (a *Atom) ID() string {
+	if a.id == "" {
+		if a.Cond != nil {
+			a.id = fmt.Sprintf("%p:%t", a.Cond, a.Want)
+		} else {
+			a.id = "d:" + a.String()
+		}
+	}
+	return a.id
+}
+
+func (a *Atom) negID() string {
+	if a.Cond != nil {
+		return fmt.Sprintf("%p:%t", a.Cond, !a.Want)
+	}
+	return "d:" + a.negKey()
 }
 
 func (a *Atom) String() string {
@@ -67,9 +90,18 @@ func (c Conj) key() string {
 	return strings.Join(ss, " && ")
 }
 
-func (c Conj) has(s string) bool {
+func (c Conj) idKey() string {
+	ss := make([]string, len(c))
+	for i, a := range c {
+		ss[i] = a.ID()
+	}
+	sort.Strings(ss)
+	return strings.Join(ss, "&")
+}
+
+func (c Conj) has(id string) bool {
 	for _, a := range c {
-		if a.String() == s {
+		if a.ID() == id {
 			return true
 		}
 	}
@@ -116,7 +148,7 @@ func dnfAnd(a, b DNF) DNF {
 			seen := map[string]bool{}
 			contra := false
 			for _, at := range append(append(Conj{}, x...), y...) {
-				k := at.String()
+				k := at.ID()
 				if seen[k] {
 					continue
 				}
@@ -124,7 +156,7 @@ func dnfAnd(a, b DNF) DNF {
 				m = append(m, at)
 			}
 			for _, at := range m {
-				if seen[at.negKey()] {
+				if seen[at.negID()] {
 					contra = true
 				}
 			}
@@ -151,7 +183,7 @@ func dnfSimplify(d DNF) DNF {
 		seen := map[string]bool{}
 		var cs []Conj
 		for _, c := range d.Cs {
-			k := c.key()
+			k := c.idKey()
 			if !seen[k] {
 				seen[k] = true
 				cs = append(cs, c)
@@ -168,7 +200,7 @@ func dnfSimplify(d DNF) DNF {
 				}
 				sub := true
 				for _, a := range o {
-					if !c.has(a.String()) {
+					if !c.has(a.ID()) {
 						sub = false
 						break
 					}
@@ -197,12 +229,12 @@ func dnfSimplify(d DNF) DNF {
 				var diffA *Atom
 				nd := 0
 				for _, x := range a {
-					if !b.has(x.String()) {
+					if !b.has(x.ID()) {
 						nd++
 						diffA = x
 					}
 				}
-				if nd == 1 && b.has(diffA.negKey()) {
+				if nd == 1 && b.has(diffA.negID()) {
 					m := Conj{}
 					for _, x := range a {
 						if x != diffA {
@@ -328,7 +360,7 @@ func (p *Prog) condAtoms(v ssa.Value, want bool, depth int) DNF {
 					}
 				}
 			}
-			return DNF{Cs: []Conj{{&Atom{Rel: rel, L: lo, R: ro, Cond: v}}}}
+			return DNF{Cs: []Conj{{&Atom{Rel: rel, L: lo, R: ro, Cond: v, Want: want}}}}
 		}
 	case *ssa.Phi:
 		// boolean phi: expand one level over incoming edges (value ∧ edge reach condition
@@ -346,7 +378,7 @@ func (p *Prog) condAtoms(v ssa.Value, want bool, depth int) DNF {
 		}
 	}
 	o := p.Origin(v)
-	return DNF{Cs: []Conj{{&Atom{B: o, Val: want, Cond: v}}}}
+	return DNF{Cs: []Conj{{&Atom{B: o, Val: want, Cond: v, Want: want}}}}
 }
 
 // ---- reach conditions ------------------------------------------------------------
